@@ -694,8 +694,11 @@ CONFIG['kaczmarz_cbinner'] = _variant('kaczmarz', **{CB_IN: True, CB_OUT: False}
 CONFIG['adupdates_cbinner'] = _variant('adupdates', **{CB_IN: True, CB_OUT: False})
 # mlem must stay the one-line wrapper around osmlem
 MLEM_BODY = 'osmlem([op], x, [data], niter=niter, callback=callback, **kwargs)'
+# mlem: a single sensitivities object (a domain element or a NumPy array) is wrapped into the one-entry list
+# osmlem expects; None, a float and a list are passed through
 MLEM_PRE = ["sensitivities = kwargs.pop('sensitivities', None)",
-            "if sensitivities is not None:\n    if sensitivities in op.domain:\n        sensitivities = [sensitivities]\n    kwargs['sensitivities'] = sensitivities"]
+            "if sensitivities is not None:\n    if sensitivities in op.domain or isinstance(sensitivities, np.ndarray):\n"
+            "        sensitivities = [sensitivities]\n    kwargs['sensitivities'] = sensitivities"]
 
 
 def pre_digest(fn):
@@ -768,11 +771,12 @@ def translate(repo=None):
     # mlem wrapper
     fn = find_fn(repo, CONFIG['osmlem'], 'mlem')
     body = [s for s in fn.body if not (isinstance(s, ast.Expr) and isinstance(s.value, ast.Constant))]
-    # the one-line wrapper, optionally preceded by the wrapping of a single sensitivities element into a list
+    # exactly: wrap a single element / ndarray into a list, then the one-line call of osmlem
     text = [ast.unparse(b) for b in body]
-    if not (text == [MLEM_BODY] or text == MLEM_PRE + [MLEM_BODY]):
+    if text != MLEM_PRE + [MLEM_BODY]:
         raise C.TranslateError('mlem is no longer the wrapper %s' % MLEM_BODY)
-    out.append('(* mlem(op, x, data, niter, callback, **kwargs) = %s *)' % MLEM_BODY)
+    out.append('(* mlem(op, x, data, niter, callback, **kwargs): sensitivities that are ONE op.domain element or ONE NumPy array '
+               'are wrapped into a one-entry list (None, a float, a list pass through), then\n   %s *)' % MLEM_BODY)
     out.append('Definition mlem_is_osmlem_with_one_operator : bool := true.')
     return '\n'.join(out) + '\n'
 
